@@ -43,6 +43,78 @@ theorem C01_facts_as_modelled :
     minTokenRandomLength = 32 ∧ tokenLeeway = 60000000000 ∧
     jwtLibVersion = "v5.2.2" := by decide
 
+/-! ## 0b. The check-then-act steps of the hello path are single critical sections
+
+The model is sequential: `helloResume` looks the session up, compares the id and attaches the connection in
+one step, `register` checks the connection and fills the tables in one step.  The source does so only while
+these statements sit inside one critical section of `Hub.mu` (resp. `Backend.sessionsLock`).  The sections
+are regenerated per control-flow path on every run (`tools/extract/authlocks.go`); the predicates below are
+decided on them, and the resume theorems are stated over `resumeConc resumeShape` — the resume branch run
+against an adversary acting wherever the source does not hold the mutex. -/
+
+/-- The resume branch of `processHello`: every path that attaches the connection or answers with a session has
+the lookup in `Hub.sessions`, the comparison with `PrivateId()`, the `*ClientSession` assertion, the
+`IsConnected` check and the attach (`SetClient`, `Hub.clients`, `Hub.expiredSessions`, `Hub.expectHelloClients`)
+in ONE section held for writing, the reply after it; no path returns with the mutex held; and the only function
+that deletes from `Hub.sessions` (`removeSession`, the path of every ending) does so holding it for writing. -/
+theorem C01_resume_one_critical_section :
+    resumeShape = .one ∧ sessionRemovers = ["removeSession:W"] := by decide
+
+/-- What `.one` is read off (kept visible: the attach path as regenerated). -/
+theorem C01_resume_attach_path :
+    [("-", ["throttle:check", "decode"]),
+     ("W", ["lookup:sessions", "check:privateId", "check:clientSession", "check:connected", "attach:SetClient",
+            "delete:expiredSessions", "store:clients", "delete:expectHelloClients"]),
+     ("-", ["reply:hello", "return"])] ∈ resumePaths := by decide
+
+/-- Exactly one section of the path carries any of `find`; it is held for writing, has `order` in that order
+inside it, and `after` occurs only in later sections. -/
+def oneSection (p : LockPath) (find order : List String) (after : String) : Bool :=
+  match p.filter (fun s => find.any s.2.contains) with
+  | [s] => s.1 == "W" && order.isSublist s.2 && p.onlyAfter s after
+  | _ => false
+
+/-- `processRegister`: on every path that answers with a session, `Backend.AddSession` (the limit) comes first,
+then — in one section held for writing — "connection still there", `SetClient`, the entries in `Hub.sessions`
+and `Hub.clients` and the removal from `Hub.expectHelloClients`, then the reply; the tables are written on no
+other path; no path returns with the mutex held. -/
+theorem C01_register_one_critical_section :
+    registerPaths.all (fun (p : LockPath) =>
+      p.released &&
+      (if p.has "reply:hello" || p.has "store:sessions" || p.has "store:clients" || p.has "attach:SetClient" then
+        oneSection p ["attach:SetClient", "store:sessions", "store:clients", "delete:expectHelloClients"]
+          ["check:connected", "attach:SetClient", "store:sessions", "store:clients", "delete:expectHelloClients"] "reply:hello"
+        && p.has "reply:hello"
+        && (p.takeWhile (fun s => s.1 == "-")).any (fun s => ["new", "limit:add"].isSublist s.2)
+       else true)) = true ∧
+    registerPaths.any (fun (p : LockPath) => p.has "reply:hello") = true := by decide
+
+/-- `Backend.AddSession`: the number of sessions is compared with the limit and the session recorded inside one
+section of `Backend.sessionsLock` (never through `Len()`, which locks by itself). -/
+theorem C01_limit_check_atomic :
+    addSessionPaths.all (fun (p : LockPath) =>
+      p.released && !p.has "limit:len-call" && !p.has "limit:compare?" &&
+      p.all (fun s => (s.2.contains "record" || s.2.contains "limit:compare") → s.1 == "W") &&
+      ((p.filter (fun s => s.2.contains "record" || s.2.contains "limit:compare")).length ≤ 1)) = true ∧
+    [("W", ["limit:compare", "record", "return"])] ∈ addSessionPaths ∧
+    [("W", ["limit:compare", "error:SessionLimitExceeded", "return"])] ∈ addSessionPaths := by decide
+
+/-- The hello timeout: a connection is put on `Hub.expectHelloClients` only after "still connected" and "not
+authenticated" were checked in the same section (`startExpectHello`), and it leaves the list — in a section of its
+own, before the backend is asked outside the mutex — when a hello without resume id is dispatched; the default
+branch of the client type switch re-arms it. -/
+theorem C01_expect_hello_sections :
+    expectHelloPaths.all (fun (p : LockPath) => p.released &&
+      (if p.has "store:expectHelloClients" then
+         oneSection p ["store:expectHelloClients"] ["check:connected", "check:authenticated", "store:expectHelloClients"] "-none-"
+       else true)) = true ∧
+    expectHelloPaths.any (fun (p : LockPath) => p.has "store:expectHelloClients") = true ∧
+    helloDispatchPaths.all (fun (p : LockPath) => p.released &&
+      (match p with
+       | s :: rest => s.1 == "W" && s.2 == ["delete:expectHelloClients"] && rest.all (·.1 == "-")
+       | [] => false) &&
+      (p.has "dispatch:processHelloClient" || p.has "dispatch:processHelloInternal" || p.has "expectHello" || p == [("W", ["delete:expectHelloClients"]), ("-", ["end"])])) = true := by decide
+
 /-! ## 1. A session is only given for credentials that verify -/
 
 /-- Environment assumption (about the web server behind the URL, not about the hub): if the
@@ -124,6 +196,64 @@ theorem helloResume_creds {cfg : Cfg} {env : Env} {now : Int} {h : Hub} {c : Nat
           unfold Hub.live
           rw [← h1, ← h2]
           exact List.mem_map.mpr ⟨s, hmem, rfl⟩
+
+/-! ### the resume branch under interleaving (depends on `C01_resume_one_critical_section`) -/
+
+/-- With the regenerated shape the resume branch under interleaving IS the sequential `helloResume`: there is
+no place between lookup and attach where anything else can run. -/
+theorem resumeConc_eq (mid : Hub → Hub) (now : Int) (h : Hub) (c : Nat) (m : Hello) :
+    resumeConc resumeShape mid now h c m = helloResume now h c m := by
+  rw [C01_resume_one_critical_section.1]; rfl
+
+/-- **Resume under interleaving.**  Whatever other connections, the housekeeping or the backend do to the hub
+wherever the resume branch does not hold `Hub.mu` (`mid`, arbitrary): a hello answered with session `sid` carried
+the private id of a session that is in the table at the moment the connection is attached — `h` is the hub when
+the one critical section is entered.  Depends on `C01_resume_one_critical_section`. -/
+theorem C01_resume_live_under_interleaving (cfg : Cfg) (env : Env) (mid : Hub → Hub) (now : Int) (h : Hub) (c : Nat)
+    (m : Hello) (sid : Nat) (bid k u : String) (hp : m.resume.present = true)
+    (hs : (resumeConc resumeShape mid now h c m).2 = .hello sid bid k u) :
+    ValidCreds cfg env now h.live m sid bid ∧
+    ∃ s ∈ (resumeConc resumeShape mid now h c m).1.sessions, s.sid = sid ∧ s.conn = some c := by
+  rw [resumeConc_eq] at hs ⊢
+  refine ⟨helloResume_creds hp hs, ?_⟩
+  unfold helloResume at hs ⊢
+  simp only [] at hs
+  split at hs
+  · simp at hs
+  · rename_i hblk
+    split at hs
+    · simp at hs
+    · rename_i hdec
+      split at hs
+      · simp at hs
+      · rename_i s hfind
+        simp only [Reply.hello.injEq] at hs
+        obtain ⟨h1, -, -, -⟩ := hs
+        simp only [hblk, hdec]
+        have hmem : s ∈ h.sessions := by
+          cases he : m.resume.exact with
+          | none => simp [he] at hfind
+          | some sid' =>
+            simp only [he, Option.bind_some] at hfind
+            exact List.mem_of_find?_eq_some hfind
+        exact ⟨{ s with conn := some c }, List.mem_map.mpr ⟨s, hmem, by simp⟩, h1, rfl⟩
+
+private def splitHub : Hub :=
+  { sessions := [{ sid := 7, backend := "b1", kind := "client", user := "bob", conn := none }],
+    conns := [(1, .raw "198.51.100.7")] }
+private def splitHello : Hello :=
+  { version := "1.0", resume := { present := true, exact := some 7, decodes := true } }
+
+/-- Why the shape matters (proved witness, the situation of seeded change C01-4): were the connection attached in
+a later section than the lookup (`.split`), the expiry of session 7 in between (`endSession · 7`) would leave
+connection 1 with a hello reply for session 7 although no session 7 is in the table — neither when the
+connection is attached nor afterwards.  With `.one` the same adversary has no place to act. -/
+theorem C01_resume_split_would_resume_dead_session :
+    let r := resumeConc .split (endSession · 7) 0 splitHub 1 splitHello
+    r.2 = .hello 7 "b1" "client" "bob" ∧ r.1.sessions = [] ∧
+    (resumeConc .one (endSession · 7) 0 splitHub 1 splitHello).1.sessions
+      = [{ sid := 7, backend := "b1", kind := "client", user := "bob", conn := some 1 }] := by
+  decide +kernel
 
 theorem helloV1_creds {cfg : Cfg} {env : Env} {now : Int} {h : Hub} {c : Nat} {m : Hello}
     {sid : Nat} {bid k u : String} (hr : RoutedByPrefix cfg m.url) (hp : m.resume.present = false)
@@ -789,6 +919,57 @@ theorem C01_valid_resume_accepted (cfg : Cfg) (env : Env) (now : Int) (h : Hub) 
     (step cfg env now h (.hello c m)).2 = .hello s.sid s.backend s.kind s.user := by
   simp only [step, ho, hv, hs, processHello, hp, helloResume, hnb, hdec, hex, Option.bind_some, hfind]
   simp
+
+/-! ## 9b. A resume racing with the end of the session: what the check expects at rest -/
+
+theorem filter_map_conn (ss : List Sess) (sid c : Nat) :
+    (ss.map (fun x => if x.sid = sid then { x with conn := some c } else x)).filter (fun x => x.sid ≠ sid)
+      = ss.filter (fun x => x.sid ≠ sid) := by
+  induction ss with
+  | nil => rfl
+  | cons a t ih =>
+    simp only [List.map_cons, List.filter_cons]
+    by_cases ha : a.sid = sid
+    · simp only [ha, if_true]; simpa using ih
+    · simp only [ha, if_false]; simp only [ne_eq, ha, not_false_eq_true, decide_true, if_true]; rw [ih]
+
+/-- The tables the driver predicts after a `rrace` step (`raceRest`) are those of both sequential orders. -/
+theorem C01_race_rest_both_orders (cfg : Cfg) (env : Env) (now : Int) (h : Hub) (c : Nat) (m : Hello) (s : Sess)
+    (ho : h.isOpen c = true) (hs : h.sessionOf c = none) (hv : checkValid m = none) (hp : m.resume.present = true)
+    (hnb : (Throttle.check h.thr now (h.tkey c) "HelloResume").2 = false)
+    (hdec : m.resume.decodes = true) (hex : m.resume.exact = some s.sid)
+    (hfind : h.sessions.find? (fun x => x.sid = s.sid) = some s) (hdet : s.conn = none) :
+    -- the session ends first: the hello is refused
+    step cfg env now (endSession h s.sid) (.hello c m) = (raceRest now h c s.sid none, .error (errCode "NoSuchSession")) ∧
+    -- the hello comes first: it is answered with the session, which then ends
+    (step cfg env now h (.hello c m)).2 = .hello s.sid s.backend s.kind s.user ∧
+    endSession (step cfg env now h (.hello c m)).1 s.sid = raceRest now h c s.sid none := by
+  have hfind' : (endSession h s.sid).sessions.find? (fun x => x.sid = s.sid) = none := by
+    simp [endSession, List.find?_eq_none]
+  have ho' : (endSession h s.sid).isOpen c = true := ho
+  have hs' : (endSession h s.sid).sessionOf c = none := by
+    unfold Hub.sessionOf at hs ⊢
+    simp only [endSession, List.find?_eq_none] at hs ⊢
+    intro x hx; exact hs x (List.mem_filter.mp hx).1
+  refine ⟨?_, ?_, ?_⟩
+  · simp only [step, ho', hv, hs', processHello, hp, helloResume]
+    have hk : (endSession h s.sid).tkey c = h.tkey c := rfl
+    have ht : (endSession h s.sid).thr = h.thr := rfl
+    simp only [hk, ht, hnb, hdec, hex, Option.bind_some, hfind']
+    simp [raceRest, endSession]
+  · simp only [step, ho, hv, hs, processHello, hp, helloResume, hnb, hdec, hex, Option.bind_some, hfind]
+    simp
+  · simp only [step, ho, hv, hs, processHello, hp, helloResume, hnb, hdec, hex, Option.bind_some, hfind]
+    simp only [raceRest, endSession, hdet]
+    have := filter_map_conn h.sessions s.sid c
+    simp only [ne_eq, decide_not] at this ⊢
+    simp [this]
+
+/-- Non-vacuity of `C01_race_rest_both_orders`: a detached session 7, a fresh connection 1. -/
+example : let h : Hub := { sessions := [{ sid := 7, backend := "b1", kind := "client", user := "bob", conn := none }],
+                           conns := [(1, .raw "198.51.100.7")] }
+    (raceRest 0 h 1 7 none).sessions = [] ∧ (raceRest 0 h 1 7 none).isOpen 1 = true ∧
+    ((raceRest 0 h 1 7 none).sessionOf 1).isNone = true := by decide +kernel
 
 /-! ## 10. The judge evaluates the spec
 
